@@ -94,6 +94,18 @@ def lib():
     defvjp(s, lambda ans, a: lambda g: g * 6 * a)
     ck = autograd.checkpoint(lambda x: anp.sin(x) * x)   # created once: making a primitive registers it (by design)
     from autograd.misc.flatten import flatten as _flatten
+    from autograd.misc import const_graph as _const_graph
+    from autograd.extend import VJPNode as _VJPNode, register_notrace as _register_notrace
+
+    @primitive
+    def rev_const(x):       # valid use of the extension API: opaque to reverse mode, differentiable in forward mode
+        return x
+
+    defjvp(rev_const, lambda g, ans, x: g)
+    _register_notrace(_VJPNode, rev_const)
+    _leaky = lambda x: anp.sum(anp.where(x > 0.0, x, 0.1 * x) ** 2)
+    _leaky_np = lambda x: onp.sum(onp.where(x > 0.0, x, 0.1 * x) ** 2)
+    _L.update(const_graph=_const_graph, rev_const=rev_const, leaky=_leaky, leaky_np=_leaky_np, x_leaky=onp.array([-1.5, 0.5, 2.0, -0.25]))
     _L.update(onp=onp, anp=anp, autograd=autograd, p=p, r=r, rf=rf, s=s, ck=ck, flatten=_flatten)
     return _L
 
@@ -154,6 +166,10 @@ def _lib_events():
         "flatten_unflattenable_leaf": lambda: Lb["flatten"]({"w": onp.array([1.0, 2.0]), "b": None, "z": 5.0}),
         "flatten_func_bad_then_good": lambda: _flatten_seq(Lb),
         "det_singular_twice": lambda: _det_singular_twice(Lb),
+        # tracing with ANOTHER node type (autograd.misc.const_graph) and a primitive that is opaque to reverse mode only
+        "const_graph_leaky": lambda: ("PAIR", Lb["const_graph"](Lb["leaky"])(Lb["x_leaky"]), Lb["leaky_np"](Lb["x_leaky"])),
+        "revconst_reverse": lambda: ("PAIR", ag.grad(lambda x: x * Lb["rev_const"](x))(1.7), 1.7),
+        "revconst_forward": lambda: ("PAIR", ag.deriv(lambda x: x * Lb["rev_const"](x))(1.7), 3.4),
     }
 
 
@@ -180,7 +196,7 @@ def _det_singular_twice(Lb):
 
 LIB_EVENTS = ["eigh_degenerate", "eigh_degenerate3", "inv_singular", "cholesky_not_pd", "f32_shapes", "f16_c64_shapes", "errstate_raise",
               "sqrt_at_zero", "bad_shape_forward", "int_argument", "fwd_inv_singular", "flatten_unflattenable_leaf", "flatten_func_bad_then_good",
-              "det_singular_twice"]
+              "det_singular_twice", "const_graph_leaky", "revconst_reverse", "revconst_forward"]
 
 
 def run_event(ev):
@@ -352,6 +368,8 @@ def canaries():
         ("arr0d", lambda: g(lambda x: np.sin(x) * x[()])(onp.array(0.7)), math.cos(.7) * .7 + math.sin(.7)),
         ("flatten", lambda: list(Lb["flatten"]((1.5, {"b": a2, "a": [2.5]}))[0]) + list(g(lambda v: np.sum(Lb["flatten"]((v, v * v))[0] ** 2))(a2)),
          [1.5, 2.5, 0.1, 0.2, 2 * 0.1 + 4 * 0.1 ** 3, 2 * 0.2 + 4 * 0.2 ** 3]),
+        ("leaky", lambda: g(Lb["leaky"])(Lb["x_leaky"]), [0.02 * -1.5, 1.0, 4.0, 0.02 * -0.25]),
+        ("revconst", lambda: [g(lambda x: x * Lb["rev_const"](x))(1.7), d(lambda x: x * Lb["rev_const"](x))(1.7)], [1.7, 3.4]),
         ("det", lambda: g(lambda A_: np.linalg.det(A_))(onp.array([[2.0, 0.5], [0.25, 1.0]])), [[1.0, -0.25], [-0.5, 2.0]]),
         ("eigh", lambda: g(lambda A: np.sum(np.linalg.eigh(A)[1][:, 0] ** 2 * onp.array([1.0, 3.0])))(onp.array([[2.0, 0.5], [0.5, 1.0]])), None),
     ]
